@@ -1,6 +1,7 @@
 package props
 
 import (
+	"strings"
 	"go/types"
 
 	"golang.org/x/tools/go/ssa"
@@ -190,6 +191,33 @@ func av1Modular(c *Ctx) *ssa.Function {
 				return common, alts
 			}}
 		c.modularEntries = append(c.modularEntries, cw)
+		// The contract of computeWriteSize is proved by expanding the size helper it calls (one path per size
+		// class). A helper that computes the size in a loop (over a table of thresholds, or by shifting) has no
+		// such expansion in the linear domain: the contract is then reported as not decided. The fragment <= MTU
+		// obligations of the fragment loop are decided under that contract either way.
+		for _, h := range directHelpers(cw) {
+			loops := false
+			for _, b := range h.Blocks {
+				for _, sc := range b.Succs {
+					if sc.Dominates(b) {
+						loops = true
+					}
+				}
+			}
+			if loops {
+				hn := core.FuncName(h)
+				prev := c.undecidedCTR
+				c.undecidedCTR = func(fname, text string) string {
+					if fname == core.FuncName(cw) && strings.HasPrefix(text, "post:") {
+						return "the size helper " + hn + " computes the LEB128 length in a loop; its value is not a linear function of the argument on any path"
+					}
+					if prev != nil {
+						return prev(fname, text)
+					}
+					return ""
+				}
+			}
+		}
 	}
 	return fn
 }
